@@ -620,8 +620,30 @@ pub fn stream(out: &mut Out, seed: u64, thorough: bool) {
             let a: Vec<f64> = random_alpha(&mut rng, c.recipe.p());
             c.history.push(a);
         }
-        let step = rng.below(c.history.len() - 1);
-        emit_faulty_state_case(o, &c, step, i % 2);
+        let mut step = rng.below(c.history.len() - 1);
+        let mut which = i % 2;
+        // one faulty history in ten (cycled): two NEARLY COLLINEAR decays - after the failing evaluation at
+        // the first update the problem is moved to parameters whose weighted basis has a smallest singular
+        // value of ~1e-9..1e-8 (far above the default threshold, far below anything a 'conservative' fallback
+        // threshold would keep): what is present afterwards must be what a fresh problem reports (round 13)
+        if i % 10 == 7 {
+            let n = 8 + (i / 10) % 5;
+            c.recipe = Recipe {
+                names: NAMES[..2].iter().map(|s| s.to_string()).collect(),
+                fns: vec![FnSpec { kind: Kind::Exp, params: vec![0] }, FnSpec { kind: Kind::Exp, params: vec![1] }],
+                x: (0..n).map(|k| 0.25 + 0.5 * k as f64).collect(),
+            };
+            c.y = random_data::<f64>(&mut rng, &c.recipe, c.y.ncols().max(1), false);
+            c.w = c.w.as_ref().map(|_| (0..n).map(|_| rng.uniform(0.5, 2.0)).collect());
+            c.eps = None;
+            c.init = vec![1.5, 4.0];
+            let t1 = 1.0 + rng.uniform(0.0, 2.0);
+            let t2 = 2.0 + rng.uniform(0.0, 2.0);
+            c.history = vec![vec![2.0, 5.0], vec![t1, t1 * (1.0 + 2f64.powi(-28))], vec![t2, t2 * (1.0 + 2f64.powi(-30))], vec![1.0, 3.0]];
+            step = 0;
+            which = 1;
+        }
+        emit_faulty_state_case(o, &c, step, which);
         sink.buf.clear();
     }
 }
